@@ -389,7 +389,13 @@ class Interp:
                             sub = State()
                             sub.env, sub.heap = ps[0].env, ps[0].heap
                             val = it._read_lv(sub, r[1])
-                            key = (('ptr', ('promoted', fn.defp, v[1])), ())
+                            # constants are keyed by their value (two promoteds holding the same constant are the same
+                            # referent; two holding different constants are told apart by every rule that compares values)
+                            vr = show(val)
+                            if 'unk' in vr or '?' in vr or len(vr) > 200:
+                                key = (('ptr', ('promoted', fn.defp, v[1])), ())
+                            else:
+                                key = (('ptr', ('promoted', 'val', vr)), ())
                             st.heap[key] = val
                             return ('ref', key, False)
                         return r
